@@ -21,6 +21,7 @@ type replayDoc struct {
 	Expected string   `json:"expected"`
 	Observed string   `json:"observed"`
 	Final    string   `json:"final_state"`
+	Note     string   `json:"note,omitempty"`
 }
 
 type pathRun struct {
@@ -84,7 +85,7 @@ func hasKind(r *pathRun, kind string, at int) bool {
 func confirm(f *found, n int) (bool, pathRun) {
 	var first pathRun
 	for i := 0; i < n; i++ {
-		r := runPath(&f.box.Cfg, &f.box.Bud, f.box.Mode == "B", f.path)
+		r := runPath(&f.box.Cfg, f.bud, f.box.Mode == "B", f.path)
 		if !hasKind(&r, f.kind, len(f.path)-1) {
 			return false, r
 		}
@@ -98,7 +99,7 @@ func confirm(f *found, n int) (bool, pathRun) {
 }
 
 func mkReplay(f *found, r pathRun) replayDoc {
-	return replayDoc{Engine: "raftmc", Box: f.box.ID, Cfg: f.box.Cfg, Bud: f.box.Bud, Fifo: f.box.Mode == "B", Path: f.path, Events: r.lines,
+	return replayDoc{Engine: "raftmc", Box: f.box.ID, Cfg: f.box.Cfg, Bud: *f.bud, Note: f.note, Fifo: f.box.Mode == "B", Path: f.path, Events: r.lines,
 		Kind: f.kind, Expected: "invariant " + f.kind + " holds after every event", Observed: strings.Join(r.details, "\n"), Final: r.final}
 }
 
